@@ -347,6 +347,8 @@ def plan(tier, seed):
     pl.cases = mark_node_cases() + visit_cases()
     pl.canaries = [canary()]
     pl.finite = [("C17-U/uniform-loops", lambda: uniform.check(LOOPS))]
+    from vfkit import lean as _leanc
+    pl.finite.append(("A6/Lean re-check of the composition lemmas L-IND, L-MARK", _leanc.compose_check('L-IND', 'L-MARK')))
     pl.functions = ["luqum.naming.ExpressionMarker.generic_visit", "luqum.naming.ExpressionMarker.__call__",
                     "luqum.naming.HTMLMarker.__init__", "luqum.naming.HTMLMarker.css_class",
                     "luqum.naming.HTMLMarker.mark_node", "luqum.naming.HTMLMarker.__call__",
